@@ -340,7 +340,7 @@ def check(col, prog, tier, profile, fixture=None):
         else:
             okabs = okabs and ret == p1
         zero = [e for e in calls if e.extra.get("name") == "from"]
-        okabs = okabs and len(zero) == 1 and zero[0].args[0][0] in ("cst", "int") and "0" in str(zero[0].args[0][1])
+        okabs = okabs and len(zero) == 1 and ((zero[0].args[0][0] == "fconst" and zero[0].args[0][1] == 0.0) or (zero[0].args[0][0] in ("cst", "int") and "0" in str(zero[0].args[0][1])))
     if okabs:
         col.ok("X4" + sfx, ab.loc(), "%s|abs" % fk(ab), "if self < 0 { -self } else { self }")
     else:
